@@ -98,6 +98,7 @@ class Body:
         self.order = {}     # node id(obj) -> preorder index
         self.ctx = {}       # id(node) -> ctx tuple
         self.nodes = []
+        self.by_id = {}
         for i, p in enumerate(rec['params']):
             for b, name, proj, pn in pat_bindings(p):
                 self.defs[b] = dict(kind='param', idx=i, proj=proj, src=None, node=None, name=name, pat=pn)
@@ -108,6 +109,8 @@ class Body:
             self.order[id(n)] = len(self.nodes)
             self.nodes.append(n)
             self.ctx[id(n)] = ctx
+            if n.get('id') is not None and n['k'] not in ('Block',):
+                self.by_id.setdefault(n['id'], n)
             k = n['k']
             if k == 'Block':
                 for s in n['stmts']:
@@ -204,16 +207,79 @@ class Body:
         if k == 'Struct':
             return (('struct', e.get('def'), e.get('id')), ())
         if k == 'If':
-            alts = [self.origin(e['then'], depth + 1)]
-            if e.get('els') is not None:
-                alts.append(self.origin(e['els'], depth + 1))
+            brs = [e['then']] + ([e['els']] if e.get('els') is not None else [])
+            alts = [self.origin(b, depth + 1) for b in brs if not diverges(b)]
+            if len(alts) == 1:
+                return alts[0]
             return (('phi', tuple(alts)), ())
         if k == 'Match':
-            return (('phi', tuple(self.origin(a['body'], depth + 1) for a in e['arms'])), ())
+            alts = [self.origin(a['body'], depth + 1) for a in e['arms'] if not diverges(a['body'])]
+            if len(alts) == 1:
+                return alts[0]
+            return (('phi', tuple(alts)), ())
         if k == 'Index':
             r, p = self.origin(e['e'], depth + 1)
             return (r, p + (('index',),))
         return (('expr', k, e.get('id')), ())
+
+    def roots(self, o, depth=0, seen=None, stop=()):
+        """Leaf roots an origin depends on: follows tuples, constructors, phis, call arguments,
+        struct literals and every assignment of a mutable local."""
+        seen = seen if seen is not None else set()
+        r, p = o
+        out = set()
+        if depth > 40:
+            return {('deep',)}
+        if r in stop:
+            return {r}
+        k = r[0]
+        if k in ('tuple', 'phi'):
+            for x in r[1]:
+                out |= self.roots(x, depth + 1, seen, stop)
+        elif k == 'ctor':
+            for x in r[2]:
+                out |= self.roots(x, depth + 1, seen, stop)
+        elif k == 'for':
+            out |= self.roots(r[1], depth + 1, seen, stop)
+        elif k == 'call':
+            n = self.by_id.get(r[2])
+            if n is None or (r[2] in seen):
+                out.add(r)
+            else:
+                seen.add(r[2])
+                args = call_args(n)
+                if not args:
+                    out.add(r)
+                for a in args:
+                    out |= self.roots(self.origin(a), depth + 1, seen, stop)
+        elif k == 'struct':
+            n = self.by_id.get(r[2])
+            if n is None:
+                out.add(r)
+            else:
+                for f in n['fields']:
+                    out |= self.roots(self.origin(f['e']), depth + 1, seen, stop)
+                if not n['fields']:
+                    out.add(r)
+        elif k == 'mut':
+            b = r[1]
+            if b in seen:
+                return out
+            seen.add(b)
+            d = self.defs.get(b)
+            if d and d.get('src') is not None:
+                o2 = self.origin(d['src'])
+                for pr in d['proj']:
+                    o2 = project(o2, pr)
+                out |= self.roots(o2, depth + 1, seen, stop)
+            for a in self.assigns.get(b, []):
+                if a['k'] == 'Assign':
+                    out |= self.roots(self.origin(a['r']), depth + 1, seen, stop)
+                else:
+                    out |= self.roots(self.origin(a['r']), depth + 1, seen, stop)
+        else:
+            out.add(r)
+        return out
 
     def origin_of_bind(self, b, depth=0):
         d = self.defs.get(b)
